@@ -442,7 +442,29 @@ def export_check(h, sig, i, v):
     if boundr[0] != "ok" or len(boundr[1]) != 1:
         problems.append(("export-bound-output:%s" % sig,
                          "calling with the output bound to the returned term %s gives %r" % (list(outs), boundr)))
+    other = other_outputs(sig, v, outs)
+    otherr = h.call(sig, i, bound=other)
+    if otherr[0] == "ok" and otherr[1]:
+        problems.append(("export-bound-other:%s" % sig,
+                         "calling with the output bound to another value %s succeeds: %r" % (list(other), otherr[1])))
     return problems
+
+
+def other_outputs(sig, v, outs):
+    """output terms of the right type that differ from what the function returns (the call must not succeed)"""
+    from problog.logic import Term, Constant, list2term
+
+    if sig == "int":
+        return [Constant(v + 1)]
+    if sig == "float":
+        return [Constant(v + 1.5)]
+    if sig == "list":
+        return [list2term(list(v) + [0])]
+    if sig == "wrapped":
+        return [list2term([v, 0])]
+    if sig == "two":
+        return [Term("zz_other"), outs[1]]
+    return [Term("zz_other")]  # str, term
 
 
 # ------------------------------------------------------------------------------------------------
@@ -483,19 +505,22 @@ class C28(Prop):
                  "exported with problog_export from generated modules, loaded by generated programs and called "
                  "through the engine and the inference pipeline; reference = the Python value itself (typed equality)")
     rule = ("every list / tuple nesting of depth <= 3 with <= 5 slots (leaf or empty container), container length "
-            "!= 1, leaves {0,-3,7,2.5,0.1+0.2,'','a',\"it's\",'say \"hi\"'} (quick: <= 4 slots over all leaves, 5 slots "
-            "over one leaf per class); exported functions: every value of <= 3 slots (+ 4 slots over representative "
-            "leaves) x every output signature that can carry it (-int,-float,-str,-list,-list wrapping,-term,"
-            "-term+-list) x {direct call, through a clause, output bound}; a value is non-trivial when it is a "
-            "container or a float/quoted string")
+            "!= 1, leaves {0,-3,7,2.5,7.0,0.1+0.2,'','a',\"it's\",'say \"hi\"'} (quick: <= 4 slots over all leaves, 5 "
+            "slots over one leaf per class {0,7.0,0.1+0.2,'a',\"it's\"}); exported functions: every value of <= 3 slots "
+            "(+ 4 slots over representative leaves) x every output signature that can carry it (-int,-float,-str,"
+            "-list,-list wrapping,-term,-term with -list) x {direct call, through a clause, output bound to the "
+            "result, output bound to another value}, and a slice of 40 values per signature and module through the "
+            "full inference pipeline; a value is non-trivial when it is a container, a float or a quoted string")
     assumptions = [
         "tuples of length 1 are outside the statement and never generated",
-        "'-str' results are judged as atoms spelling the string (maintainers' corpus expectation), not through pl2py",
+        "'-str' results are judged as atoms spelling the string (maintainers' corpus expectation test/extern_test.pl), "
+        "not through pl2py",
         "'-term' functions return py2pl(value) (a Term is what the signature documents)",
         "export of a value whose plain pl2py(py2pl(v)) already differs is counted as excluded_by_roundtrip "
         "(same conversion code; reported once under the round trip)",
+        "a structure difference hides differences below it (positions can not be aligned)",
     ]
-    budget = {"quick": 120, "thorough": 1500}
+    budget = {"quick": 240, "thorough": 2400}
 
     def _leafsets(self, tier):
         if tier == "thorough":
@@ -584,7 +609,7 @@ class C28(Prop):
                         continue
                     acc.evaluations += 1
                     acc.traces += 1
-                    acc.transitions += 3
+                    acc.transitions += 4  # direct call, through a clause, output bound to the result / another value
                     acc.nontrivial += 1
                     probs = export_check(h, sig, j, v)
                     if not probs:
@@ -593,15 +618,18 @@ class C28(Prop):
                     for sym, obs in probs:
                         acc.outcomes[sym] += 1
                         small = self._shrink_export(v, sig, sym, memo)
+                        if small is not v:
+                            obs = self._observe_export(small, sig, sym) or obs
                         acc.violation(sym, {"kind": "export", "sig": sig, "value": enc(small)},
                                       expected="ret_%s seen from ProbLog as %r" % (sig, expected_results(sig, small)),
                                       observed=obs, what="exported function (%s) returning %r: %s" % (sig, small, obs))
             # a slice through the full pipeline (parse, ground, compile, evaluate), all queries at once
-            self._pipeline(h, vals, acc)
+            self._pipeline(h, vals, acc, memo)
         finally:
             h.close()
 
-    def _pipeline(self, h, vals, acc):
+    def _pipeline(self, h, vals, acc, memo=None):
+        memo = {} if memo is None else memo
         for sig in SIGS:
             idxs = [j for j, v in enumerate(vals) if carries(sig, v) and roundtrip(v)[0] == "ok"][:40]
             if not idxs:
@@ -636,9 +664,57 @@ class C28(Prop):
                     acc.outcomes["pipeline:ok:" + sig] += 1
                 else:
                     acc.outcomes[bad[0]] += 1
-                    acc.violation(bad[0], {"kind": "pipeline", "sig": sig, "values": [enc(vals[j])]},
-                                  expected="query(ret_%s(0,X)) answered with %r" % (sig, exp), observed=bad[1],
-                                  what="inference over exported function (%s) returning %r: %s" % (sig, vals[j], bad[1]))
+                    small = self._shrink_pipeline(vals[j], sig, bad[0], memo)
+                    p2 = self._pipeline_problem(small, sig)
+                    obs = p2[1] if p2 and p2[0] == bad[0] else bad[1]
+                    if not (p2 and p2[0] == bad[0]):
+                        small = vals[j]  # only reproduces inside the batch of queries: keep the original value
+                    acc.violation(bad[0], {"kind": "pipeline", "sig": sig, "values": [enc(small)]},
+                                  expected="query(ret_%s(0,X)) answered with %r" % (sig, expected_results(sig, small)),
+                                  observed=obs,
+                                  what="inference over exported function (%s) returning %r: %s" % (sig, small, obs))
+
+    @staticmethod
+    def _observe_export(v, sig, sym):
+        h = ExportHarness([v])
+        try:
+            for s, obs in export_check(h, sig, 0, v):
+                if s == sym:
+                    return obs
+        finally:
+            h.close()
+        return None
+
+    @staticmethod
+    def _pipeline_problem(v, sig):
+        """-> (symptom, observed) of the full-pipeline query on one value, or None"""
+        h = ExportHarness([v])
+        try:
+            res = h.pipeline(sig, [0])
+        finally:
+            h.close()
+        if res[0] == "timeout":
+            return None
+        if res[0] != "ok":
+            return ("export-pipeline-%s:%s" % (":".join(str(x) for x in res[:2]), sig), repr(res))
+        ans = res[1].get(0, [])
+        exp = expected_results(sig, v)
+        if len(ans) != 1 or abs(ans[0][1] - 1.0) > 1e-9:
+            return ("export-pipeline-answers:%s" % sig, "answers %r" % (ans,))
+        for pos, (t, pv) in enumerate(zip(ans[0][0], exp)):
+            b = judge_output(sig, pos, t, pv)
+            if b:
+                return ("export-pipeline-%s:%s" % (b[0], sig), "output %d seen as %s, i.e. %s" % (pos, t, b[1]))
+        return None
+
+    def _shrink_pipeline(self, v, sig, sym, memo):
+        def fails(c):
+            if not in_statement(c) or not carries(sig, c) or roundtrip(c)[0] != "ok":
+                return False
+            p = self._pipeline_problem(c, sig)
+            return p is not None and p[0] == sym
+
+        return shrink_value(v, fails, memo.setdefault(("pipeline", sig, sym), {}))
 
     def _shrink_export(self, v, sig, sym, memo):
         def fails(c):
